@@ -2,7 +2,7 @@
    extraction and for vm_compute cross-checks. *)
 From Coq Require Import ZArith List Bool Arith Lia.
 From Coq Require Import QArith.
-From RV Require Import Val Syntax Rho Offline Online Sat IA Pastify Jitter Units Support Lexer Parser Elab Dense DenseSem DenseMerge DenseEval DenseWin DenseVisitor DenseSat Explain ExtZ.
+From RV Require Import Val Syntax Rho Offline Online Sat IA Pastify Jitter Units Support Lexer Parser Elab Dense DenseSem DenseMerge DenseOnlineMerge DenseEval DenseWin DenseVisitor DenseSat Explain ExtZ.
 Import ListNotations.
 
 Definition zformula := @formula ExtZVal.
@@ -68,6 +68,24 @@ Definition run_isect (op : nat) (s1 s2 : list (Z * extz)) : option (list (Z * ex
   isect (match op with
          | O => vmin | 1%nat => vmax
          | 2%nat => a2 ExtZArith Sub | _ => a2 ExtZArith Add end) s1 s2.
+
+(* the online merge (online/intersection.py) and the update() wrapper shared by the binary online operations
+   (and / or / implies / iff / xor / addition / subtraction), over stamps with +inf *)
+Definition bin_f (op : nat) : extz -> extz -> extz :=
+  match op with
+  | O => vmin | 1%nat => vmax
+  | 2%nat => a2 ExtZArith Sub | 3%nat => a2 ExtZArith Add
+  | 4%nat => fun a b => vmax (neg a) b
+  | 5%nat => fun a b => neg (a1 ExtZArith Abs (a2 ExtZArith Sub a b))
+  | _ => fun a b => a1 ExtZArith Abs (a2 ExtZArith Sub a b)
+  end.
+Definition run_oisect (op : nat) (s1 s2 : list (tz * extz)) :=
+  @oisect_e ExtZVal (bin_f op) s1 s2.
+Definition run_binrun (op : nat) (bs : list (list (tz * extz) * list (tz * extz))) :=
+  match @bin_run_e ExtZVal (bin_f op) ostate0 bs with
+  | None => None
+  | Some (st, outs) => Some (outs, lbuf st, rbuf st, lout st)
+  end.
 
 (* explain() on a list of assertions: the table of intervals per input variable *)
 Definition run_explain (ps : list zformula) (w : ztrace) (n : nat) : option (list (nat * list (nat * nat))) :=
